@@ -41,6 +41,8 @@ type ArrObj struct {
 	N       *Term      // length (64-bit) when Dense == nil
 	Content symContent // current content
 	id      int
+	// bigArray: this object is the value of a large Go array (value semantics)
+	bigArray bool
 }
 
 // Slice value; the nil slice has Arr == nil.
@@ -135,6 +137,13 @@ func (ex *Exec) zero(t types.Type) Value {
 		}
 		return s
 	case *types.Array:
+		if t.Len() > ex.MaxDense && ex.MaxDense > 0 {
+			if _, scalar := ex.zero(t.Elem()).(*Term); scalar {
+				// large fixed-size buffers are kept functional (value semantics:
+				// copies share the immutable content tree)
+				return ex.newSym(t.Elem(), ex.i64(t.Len()), symZero{})
+			}
+		}
 		a := make(Array, t.Len())
 		if t.Len() > 0 {
 			z := ex.zero(t.Elem())
@@ -227,6 +236,10 @@ func copyVal(v Value) Value {
 		n := make(Tuple, len(v))
 		copy(n, v)
 		return n
+	case *ArrObj:
+		if v != nil && v.bigArray {
+			return &ArrObj{Elem: v.Elem, N: v.N, Content: v.Content, bigArray: true}
+		}
 	}
 	return v
 }
@@ -247,6 +260,11 @@ func storeInto(slot *Value, v Value) {
 			for i := range nv {
 				storeInto(&old[i], nv[i])
 			}
+			return
+		}
+	case *ArrObj:
+		if old, ok := (*slot).(*ArrObj); ok && old != nil && nv != nil && old.bigArray && nv.bigArray {
+			old.Content = nv.Content // in place: slices of the array stay valid
 			return
 		}
 	}
